@@ -122,7 +122,7 @@ def lift_domain(rng, prog, fl):
 
 
 def mk(cid, prog, fl, mode="exact", tags=()):
-    if not any(t in DOMS for t in tags):          # (the C17 cases name their domain themselves)
+    if not any(t in DOMS for t in tags) and "nolift" not in tags:          # (the C17 cases name their domain themselves)
         lift_domain(random.Random(C.prog_hash(prog)), prog, fl)
         if fl.get("dom", "float") not in ("float", "int"):
             mode = "tol"                          # lengths and integrals travel through nanosecond Timedeltas there
@@ -492,6 +492,10 @@ def gen_C08(rng, tier):
             f = rng.choice(small)
         else:
             f = rand_leaf_pow2(rng) if exact else rand_leaf(rng, maxn=7)
+        big_offset = k % 9 == 4
+        if big_offset:        # values that are large compared with their spread (amounts in cents, epoch seconds): var must not cancel
+            off = F(2 ** rng.choice([27, 30]))       # (numeric domains only: value x Timedelta would overflow by design)
+            f = (f[0], [None if v is None else v + off for v in f[1]])
         c = rng.choice(SIDES)
         prog = [leaf_stmt(0, f, c)]
         if rng.random() < 0.3:
@@ -519,7 +523,8 @@ def gen_C08(rng, tier):
         prog += qs[: rng.randint(3, 6)]
         if not has_finite_defined(f):
             prog = [s for s in prog if not (s["s"] == "query" and s["q"] == "var")]
-        cases.append(mk(f"C08/{'exact' if exact else 'tol'}/{k}", prog, flav(rng, has_nan(f)), mode="tol", tags=["stats"]))
+        cases.append(mk(f"C08/{'exact' if exact else 'tol'}/{k}", prog, flav(rng, has_nan(f)), mode="tol",
+                        tags=["stats"] + (["nolift", "offset"] if big_offset else [])))
     return cases
 
 
